@@ -1,6 +1,7 @@
 package scen
 
 import (
+	"encoding/json"
 	"errors"
 	"fmt"
 	"strconv"
@@ -76,13 +77,23 @@ func (e *Engine) startQE(s *Submission, r res.Resource, arg string) {
 	e.QEs = append(e.QEs, q)
 	e.H.mu.Unlock()
 	conn := e.Conn
-	before := len(conn.ActiveSubs())
 	q.StartSeq = e.H.Rec("qe.start", q.Group, q.ID, q.RName)
 	r.QueryEvent(func(qr res.QueryRequest) { e.qeCallback(q, qr) })
-	subs := conn.ActiveSubs()
-	if len(subs) > before {
-		q.Subject = subs[len(subs)-1].Subject
-	} else {
+	// the subject is the one announced by this task's query event
+	task := ""
+	if t := e.Sim.Current(); t != nil {
+		task = t.Name
+	}
+	for _, p := range conn.PubsSnapshot() {
+		if p.Seq > q.StartSeq && p.Task == task && p.Subject == "event."+q.RName+".query" {
+			var ev struct {
+				Subject string `json:"subject"`
+			}
+			json.Unmarshal(p.Data, &ev)
+			q.Subject = ev.Subject
+		}
+	}
+	if q.Subject == "" {
 		q.SubFailed = true
 	}
 }
@@ -95,6 +106,7 @@ func (e *Engine) qeCallback(q *QEInfo, qr res.QueryRequest) {
 			e.H.Rec("qe.nil.sync", q.Group, q.ID, "")
 			e.H.mu.Lock()
 			q.NilCalls = append(q.NilCalls, e.Sim.Seq())
+			q.NilAt = append(q.NilAt, time.Now())
 			e.H.mu.Unlock()
 			return
 		}
@@ -105,6 +117,7 @@ func (e *Engine) qeCallback(q *QEInfo, qr res.QueryRequest) {
 		}
 		e.H.mu.Lock()
 		q.NilCalls = append(q.NilCalls, e.Sim.Seq())
+		q.NilAt = append(q.NilAt, time.Now())
 		e.H.mu.Unlock()
 		e.Sim.Yield("handler", "qexpire")
 		e.H.Exit(q.Group, -q.ID, "qexpire")
@@ -223,7 +236,10 @@ func (e *Engine) TimeActions() []sched.Action {
 		}
 		d := q.Start.Add(dur).Sub(now)
 		if d < 0 {
-			continue
+			// the duration counts from the moment the library registered the
+			// query event, which is later than the call: the deadline is at
+			// most one duration away
+			d = dur
 		}
 		if next < 0 || d < next {
 			next = d
@@ -262,7 +278,7 @@ func (e *Engine) HookObserver(point, arg string) {
 	e.H.mu.Lock()
 	var q *QEInfo
 	for _, c := range e.QEs {
-		if !c.Expired && c.Subject != "" {
+		if !c.Expired && c.Subject != "" && c.RName == arg {
 			q = c
 			break
 		}
